@@ -1,6 +1,6 @@
 (* Run.v — dispatch of correspondence cases to the per-property runners *)
 From Coq Require Import String.
-From LLG Require Import Base Params Sx Run16 RunEngine RunFfi Run09 Run04 Run05 Run08 Run18 Run15 Run19.
+From LLG Require Import Base Params Sx Run16 RunEngine RunFfi Run09 Run04 Run05 Run08 Run18 Run15 Run19 Run06.
 Open Scope string_scope.
 Open Scope N_scope.
 
@@ -14,6 +14,7 @@ Definition run_case (prop : bytes) (x : sx) : sx :=
   else if bytes_eqb prop (sym "C08") then run_case08 x
   else if bytes_eqb prop (sym "C15") then run_case15 x
   else if bytes_eqb prop (sym "C19") then run_case19 x
+  else if bytes_eqb (head_sym x) (sym "json6") then run_case06 x
   else if bytes_eqb (head_sym x) (sym "lcm") || bytes_eqb (head_sym x) (sym "multof") then run_case08 x
   else if bytes_eqb (head_sym x) (sym "stopctl") || bytes_eqb (head_sym x) (sym "cfg") then run_case18 x
   else if bytes_eqb (head_sym x) (sym "session") then run_session ROLLBACK_CLEARS_CACHE (tail_items x)
